@@ -59,6 +59,8 @@ def gen(rng, tier):
                 body = good[2:][:k] + mb + good[2:][k:total - w]
                 assert len(body.encode()) == total
                 add(pre + body, "utf8-straddle")
+    for t in ["0x0x" + good[2:], "0x0x0x" + good[2:], "0x" + good[2:] + "00", good[2:] + "00", "0x" + good[2:] + "0000", good + good[2:], "0x" + good[2:] + "1b", "00" + good[2:], "0x00" + good[2:]]:
+        add(t, "overlong-or-doubled")
     for t in ["", "0x", "0X" + good[2:], " " + good, good + " ", good + "\n", "0x0x" + good[2:], "1b", "0x1b"]:
         add(t, "malformed", nt=False)
     return cases
